@@ -100,9 +100,12 @@ func (fs *FullStack) Multicast(body []byte) {
 	fs.D.G.VerifBuff().ServeMsg(&nl.Msg{Body: body})
 }
 
-// Quiesce: perio server idle, then event loop idle.
+// Quiesce: perio server idle, multicast hand-over drained, then event loop idle.
 func (fs *FullStack) Quiesce() error {
 	if !fs.D.PerioBarrier() {
+		return ErrWatchdog
+	}
+	if !fs.D.McastBarrier() {
 		return ErrWatchdog
 	}
 	return fs.Env.Barrier()
